@@ -305,7 +305,18 @@ func c07(c *Ctx) {
 					recv, _ := methodCall(info, call)
 					return isField(info, recv, f)
 				}))
-				if ok, _ := g.MustPassBeforeExit(x, ds); !ok || len(ds) == 0 {
+				// the decrement and the rescale go together: the rescale follows the decrement on every path, or it precedes it on
+				// every path and is itself always followed by the decrement
+				after, _ := g.MustPassBeforeExit(x, ds)
+				before, _ := g.DominatedByNodes(x, ds)
+				if before {
+					for d := range ds {
+						if ok, _ := g.MustPassBeforeExit(d, map[*GNode]bool{x: true}); !ok {
+							before = false
+						}
+					}
+				}
+				if len(ds) == 0 || !(after || before) {
 					both = false
 				}
 			}
@@ -515,9 +526,11 @@ func c07(c *Ctx) {
 			continue
 		}
 		var alias []string
-		inspectNoLit(fn.Body(), func(n ast.Node) bool {
+		// a collect implementation shared by both temporalities is judged under the temporality this method selects
+		work, live := ax.delegateUnder(fn)
+		inspectNoLit(work.Body(), func(n ast.Node) bool {
 			as, ok := n.(*ast.AssignStmt)
-			if !ok || len(as.Lhs) != len(as.Rhs) {
+			if !ok || len(as.Lhs) != len(as.Rhs) || !live(as) {
 				return true
 			}
 			for i, r := range as.Rhs {
@@ -538,9 +551,10 @@ func c07(c *Ctx) {
 			fBounds := lookupField(ax.Pkg, "histValues", "bounds")
 			okB := true
 			n := 0
-			inspectNoLit(fn.Body(), func(nd ast.Node) bool {
+			work, live := ax.delegateUnder(fn)
+			inspectNoLit(work.Body(), func(nd ast.Node) bool {
 				as, ok := nd.(*ast.AssignStmt)
-				if !ok {
+				if !ok || !live(as) {
 					return true
 				}
 				for _, r := range as.Rhs {
@@ -578,6 +592,7 @@ func ruleSignRoles(c *Ctx, ax *PkgIndex, rule string) {
 			continue
 		}
 		fPos, fNeg := lookupField(ax.Pkg, "expoHistogramDataPoint", "posBuckets"), lookupField(ax.Pkg, "expoHistogramDataPoint", "negBuckets")
+		fn, _ = ax.delegateUnder(fn)
 		var bad []string
 		n := 0
 		var visit func(st ast.Stmt)
